@@ -23,8 +23,15 @@
         `Tree` with `Compiler.tab` (a type met while it is being compiled is OP_recurse into its own program) - by
         induction on the VALUE; for values `Ir.Conf` (inhabitants; no -0.0 under omitempty; under the compile option
         EncOnlyOmitNull every omitempty field nil or not empty) that need (`Ir.needV`, value-level) at most MaxStack
-        states.  PARTIAL: callback types (json.Marshaler / TextMarshaler: outside the model), bool / float map keys
-        (`bool_key_deviates`), embedded fields.
+        states; and the CALLBACK leaves (json.Marshaler / encoding.TextMarshaler library types, the callback's text an opaque
+        leaf of machine and specification alike, assumed to be JSON): a value-receiver type compiles to OP_marshal /
+        OP_marshal_text, through a pointer (`pv`) to OP_marshal_p / OP_marshal_text_p on `*T`; a pointer to a callback type
+        of either receiver compiles to compileMarshaler's nil test (`null`) and the call through the pointer.
+        PARTIAL: a pointer-receiver callback type met by value (addressable: the `_p` instruction; not addressable: compiled
+        as the plain struct - needs the specification's `addr` coupled to the compiler's `pv`), TextMarshaler texts that
+        are not JSON, bool / float map keys (`bool_key_deviates`, `float_key_deviates`), embedded fields.
+  * `callback_receiver_irrelevant`    for a value-receiver callback type the program compiled with `pv` (OP_marshal_p on `*T`) and
+        the one compiled without (OP_marshal on `T`) return the same result
   * `exec_compile_eq_encode_fails`    the FULL statement (all types, values, options) is false on the faithful model:
         witnesses are known deviations of the compiler from encoding/json, replayed on the real code by the C03 check
         (known findings C03-omitempty-negative-zero, C03-string-opt-inner-literal, C03-map-key-kinds-beyond-std) and
@@ -194,11 +201,11 @@ theorem too_deep_is_error (o : EncOpts) (co : COpts) :
 
 /-- a pointer met with the stack full: the run ends in ERR_too_deep (and `Enc.encode`, like encoding/json, has no such
     limit - known finding C03-max-stack-depth) -/
-theorem too_deep_witness (o : EncOpts) (co : COpts) (t : GoType) (w : GoVal) (s : Stack) (hs : s.length = maxStack) :
+theorem too_deep_witness (o : EncOpts) (co : COpts) (t : GoType) (hcb : cbPtr t = false) (w : GoVal) (s : Stack) (hs : s.length = maxStack) :
     Halts o co false (compile co (.ptr t) false) 0 (Regs.start (.val (.ptr w))) s [] (.error .tooDeep) := by
   have hat : At (compile co (.ptr t) false) 0 (code co (libK co libNames.length) [] 0 0 false (.ptr t)) := At.whole _
   rw [code, if_neg (by simp [tabHas])] at hat
-  simp only [List.cons_append, List.nil_append] at hat
+  simp only [cbPtr_false hcb, List.cons_append, List.nil_append] at hat
   refine halts_step (hat.get 0 (by omega) rfl) (by simp only [step, Regs.start, Cur.get, jumpIf]; rfl) ?_
   exact halts_err (hat.get 1 (by omega) rfl) (by simp only [step]; rw [if_pos (by omega)])
 
@@ -218,6 +225,31 @@ theorem bool_key_deviates :
   refine ⟨exec_eq_of_fuel (n := 40) ?_, ?_⟩
   · decide +kernel
   · decide +kernel
+
+/-- map[float64]T: the machine prints a nil map as `null` (and the entries of a non-empty one unless keys are sorted: appendGeneric
+    has no float case), encoding/json refuses the type.  Known finding C03-map-key-kinds-beyond-std. -/
+theorem float_key_deviates :
+    exec {} {} (compile {} (.map .f64 (.int 64)) false) .nil = .ok (ascii "null") ∧
+    Enc.encode {} (.map .f64 (.int 64)) .nil = .error .unsupportedType := by
+  refine ⟨exec_eq_of_fuel (n := 40) ?_, ?_⟩
+  · decide +kernel
+  · decide +kernel
+
+/-- CALLBACK DISPATCH: for a callback type with a value receiver the compiler picks OP_marshal(_text) on the value, or - when the
+    value is reached through a pointer - OP_marshal(_text)_p on the pointer type; both programs return the specification's result -/
+theorem callback_receiver_irrelevant (o : EncOpts) (co : COpts) (n : String) (json : Bool) (v : GoVal)
+    (hco : 0 < co.maxInlineDepth) (hk : cbKind n = some (json, true)) (hC : Conf co (.lib n) v = true) :
+    compile co (.lib n) false = [if json then Instr.marshal (.lib n) else Instr.marshalText (.lib n)] ∧
+    compile co (.lib n) true = [if json then Instr.marshalP (.ptr (.lib n)) else Instr.marshalTextP (.ptr (.lib n))] ∧
+    exec o co (compile co (.lib n) true) v = exec o co (compile co (.lib n) false) v ∧
+    exec o co (compile co (.lib n) false) v = liftE (Enc.encode o (.lib n) v) := by
+  have hS : Ir.Sub (.lib n) = true := by simp [Ir.Sub, cbValue, hk]
+  have hroom : needV (.lib n) v ≤ maxStack := by
+    cases v <;> simp [needV, libStruct_cb hk]
+  refine ⟨?_, ?_, ?_, exec_compile_eq_encode_partial o co _ false v hco hS hC hroom⟩
+  · unfold compile; rw [code, if_neg (by simp [tabHas])]; cases json <;> simp [cbCode, hk]
+  · unfold compile; rw [code, if_neg (by simp [tabHas])]; cases json <;> simp [cbCode, hk]
+  · rw [exec_compile_eq_encode_partial o co _ true v hco hS hC hroom, exec_compile_eq_encode_partial o co _ false v hco hS hC hroom]
 
 def tOmitNull : GoType := .st [("A", some (ascii "a,omitempty"), .sl (.int 64)), ("B", some (ascii "b,omitempty"), .int 64)]
 def vOmitNull : GoVal := .st [.sl [], .int 0]
@@ -275,6 +307,19 @@ example : ((compile { maxInlineDepth := 1 } tDemo false).any fun i => match i wi
 /-- a NaN is the specification's error on both sides -/
 example : execFuel 50 {} {} (compile {} (.sl .f64) false) (.sl [.f64 0, .f64 0x7ff8000000000001]) = some (.error (.enc .unsupportedValue)) ∧
     Enc.encode {} (.sl .f64) (.sl [.f64 0, .f64 0x7ff8000000000001]) = .error .unsupportedValue := by decide +kernel
+def tCb : GoType := .st [("A", none, .lib "MV"), ("B", some (ascii "b,omitempty"), .ptr (.lib "MP")), ("C", none, .sl (.lib "LJ")), ("D", none, .ptr (.lib "TP")),
+  ("E", none, .ptr (.lib "LT"))]
+def vCb : GoVal := .st [.st [.int 5], .ptr (.st [.int (-3)]), .sl [.lib (ascii "[1, 2]"), .lib (ascii " true")], .nil, .ptr (.lib (ascii "\"t\""))]
+/-- callbacks inside the theorem: value receiver by value (OP_marshal) and as a slice element (OP_marshal_p), pointer receiver through
+    a pointer, a nil pointer to a TextMarshaler (`null`), a TextMarshaler whose text is a JSON string -/
+example : Sub tCb = true ∧ Conf {} tCb vCb = true ∧ needV tCb vCb ≤ maxStack := by decide +kernel
+example : execFuel 200 { compactMarshaler := true } {} (compile {} tCb false) vCb =
+    some (.ok (ascii "{\"A\":{\"mv\":5},\"b\":{\"mp\":-3},\"C\":[[1,2],true],\"D\":null,\"E\":\"\\\"t\\\"\"}")) ∧
+    Enc.encode { compactMarshaler := true } tCb vCb =
+    .ok (ascii "{\"A\":{\"mv\":5},\"b\":{\"mp\":-3},\"C\":[[1,2],true],\"D\":null,\"E\":\"\\\"t\\\"\"}") := by decide +kernel
+example : ((compile {} tCb false).filterMap fun i => match i with
+    | .marshal _ | .marshalP _ | .marshalText _ | .marshalTextP _ => some i.name | _ => none) =
+    ["marshal", "marshal", "marshal_p", "marshal_p", "marshal_text", "marshal_text"] := by decide +kernel
 /-- EncOnlyOmitNull inside the theorem: nil or non-empty `omitempty` fields -/
 example : Conf { encOnlyOmitNull := true } tOmitNull (.st [.nil, .int 5]) = true ∧ Conf { encOnlyOmitNull := true } tOmitNull vOmitNull = false := by decide +kernel
 
